@@ -78,6 +78,7 @@ enum NavigateInput {
 }
 
 #[doc(hidden)]
+#[cfg_attr(feature = "verif-hooks", derive(Clone))]
 pub struct Cli<W: Write<Error = E>, E: Error, CommandBuffer: Buffer, HistoryBuffer: Buffer> {
     editor: Option<Editor<CommandBuffer>>,
     #[cfg(feature = "history")]
@@ -465,28 +466,6 @@ where
         self.writer.flush()?;
 
         Ok(())
-    }
-}
-
-#[cfg(feature = "verif-hooks")]
-impl<W, E, CommandBuffer, HistoryBuffer> Clone for Cli<W, E, CommandBuffer, HistoryBuffer>
-where
-    W: Write<Error = E> + Clone,
-    E: embedded_io::Error,
-    CommandBuffer: Buffer + Clone,
-    HistoryBuffer: Buffer + Clone,
-{
-    fn clone(&self) -> Self {
-        Self {
-            editor: self.editor.clone(),
-            #[cfg(feature = "history")]
-            history: self.history.clone(),
-            input_generator: self.input_generator.clone(),
-            prompt: self.prompt,
-            writer: self.writer.clone(),
-            #[cfg(not(feature = "history"))]
-            _ph: PhantomData,
-        }
     }
 }
 
